@@ -64,6 +64,9 @@ def _atom(left: str, op: str, right: str) -> str:
 
 def _ptree(n: ast.expr, names: dict[str, str], neg: bool):
     src = ast.unparse(n)
+    if "truth:" + src in names:                 # the truth value of a number / timedelta: `≠ 0`
+        t = names["truth:" + src]
+        return ("atom", _atom(t, "=" if neg else "≠", "(0)"))
     if src in names:
         return ("atom", f"(¬ {names[src]})" if neg else names[src])
     if isinstance(n, ast.UnaryOp) and isinstance(n.op, ast.Not):
@@ -127,14 +130,20 @@ def lean_prop(name: str, params: str, body: str, doc: str) -> str:
 #      `v = <simple>; if C: v = X` is `if C: v = X else: v = <simple>`;
 #   c. tests are in negation normal form (`not` pushed through `and`/`or` and into single comparisons; a chained
 #      comparison over a simple middle operand is a conjunction);
+#   c'. comparisons have one spelling: in `a ± c <op> b ± d` the integer constants are on the side where their net value is
+#      positive, and of `a <op> b` / `b <mirrored op> a` (pure operands) the one whose first operand has the smaller text
+#      (locals by position) is used; a local that only ever holds a `Gap` or None is tested with `is not None`;
+#      `self.m(k=x)` is `self.m(x)` for a method of the same class (or of a known peer object such as `self._buffer`);
 #   d. `map(lambda x: E, it)` / `filter(lambda x: P, it)` are generator expressions, a generator over `enumerate(…)`
 #      unpacks the pair, comprehension / lambda variables are renamed apart; the loops `acc = 0; for …: acc += E`,
 #      `for …: if P: return True` + `return False` (and the `all` dual), `for …: if P: return V` + `return D`,
 #      `v = D; for …: if P: v = V; break` are `sum(…)`, `any(…)`, `all(…)`, `next((…), D)` over a generator (the
-#      loop variables must not be used after the loop);
+#      loop variables must not be used after the loop); `for i, g in enumerate(<gaps>): if P: break` + `else: <ends>` with
+#      the loop variables used afterwards is `i, g = next((…), (0, None)); if g is None: <ends>`;
 #   e. calls of private helpers of the same class (or module) that have no pattern of their own are inlined (as an
 #      expression when the helper is one `return E` and the arguments are simple, as statements for `return h(…)`,
-#      `x = h(…)`, `h(…)`);
+#      `x = h(…)`, `h(…)`; a helper whose every path returns or raises is continued, at each of its `return`s, with what
+#      follows the call);
 #   f. the function is split on every parameter that is used as a condition and never assigned (`if p: <all> else:
 #      <all>`), and inside an `if` on a local that cannot change its tests on that local are decided;
 #   g. decisions: when a path through an `if` leaves the block (or all that follows is one `return`/`raise`), what
@@ -159,7 +168,7 @@ def lean_prop(name: str, params: str, body: str, doc: str) -> str:
 # The steps are repeated until nothing changes.
 NEG_OP = {ast.Lt: ast.GtE, ast.GtE: ast.Lt, ast.LtE: ast.Gt, ast.Gt: ast.LtE, ast.Eq: ast.NotEq, ast.NotEq: ast.Eq,
           ast.Is: ast.IsNot, ast.IsNot: ast.Is, ast.In: ast.NotIn, ast.NotIn: ast.In}
-NEGATIVE_OPS = (ast.NotEq, ast.GtE, ast.Gt, ast.IsNot, ast.NotIn)
+NEGATIVE_OPS = (ast.NotEq, ast.GtE, ast.Gt, ast.Is, ast.NotIn)     # (`x is not None`: presence, like the truth of `x`, is positive)
 PURE_CALLS = {
     "max", "min", "len", "isinstance", "deepcopy", "round", "int", "sum", "any", "all", "map", "filter", "enumerate",
     "next", "slice", "timedelta", "Gap", "np.array", "divmod", "sorted", "abs", "bool", "range", "zip",
@@ -626,6 +635,10 @@ def _load(t: ast.expr) -> ast.expr:
 class _Rewrite(ast.NodeTransformer):
     """Steps a–d that look at one node."""
 
+    def __init__(self, positions: dict[str, str] | None = None, gap_locals: set[str] | None = None):
+        self.positions = positions or {}       # local name -> `_p<i>` / `_v<j>` (position of its first binding)
+        self.gap_locals = gap_locals or set()  # locals that only ever hold a `Gap` object or None
+
     # ---- a
     def visit_Expr(self, node):  # noqa: N802
         self.generic_visit(node)
@@ -744,13 +757,72 @@ class _Rewrite(ast.NodeTransformer):
         if len(node.ops) > 1 and all(_simple(c) for c in node.comparators[:-1]):
             parts, left = [], node.left
             for op, right in zip(node.ops, node.comparators):
-                parts.append(ast.Compare(left=copy.deepcopy(left), ops=[op], comparators=[right]))
+                parts.append(self.canonical_compare(ast.Compare(left=copy.deepcopy(left), ops=[op], comparators=[right])))
                 left = right
             return ast.BoolOp(op=ast.And(), values=parts)
+        if len(node.ops) == 1:
+            return self.canonical_compare(node)
+        return node
+
+    MIRROR = {ast.Lt: ast.Gt, ast.Gt: ast.Lt, ast.LtE: ast.GtE, ast.GtE: ast.LtE, ast.Eq: ast.Eq, ast.NotEq: ast.NotEq}
+
+    def canonical_compare(self, node: ast.Compare) -> ast.Compare:
+        """One spelling for `a ± c <op> b ± d` (integer constants c, d: moved to the side where the net constant is
+        positive — exact for ints, datetimes, timedeltas) and for `a <op> b` vs `b <mirrored op> a` (pure operands: the
+        one with the smaller text — locals by position — comes first, a constant last)."""
+        op = type(node.ops[0])
+        if op not in self.MIRROR:
+            return node
+        left, right = node.left, node.comparators[0]
+        if _reads(left, set()).impure or _reads(right, set()).impure:
+            return node
+
+        def split(e: ast.expr) -> tuple[ast.expr, int]:
+            if isinstance(e, ast.BinOp) and isinstance(e.op, (ast.Add, ast.Sub)) and isinstance(e.right, ast.Constant) \
+                    and type(e.right.value) is int:
+                base, k = split(e.left)
+                return base, k + (e.right.value if isinstance(e.op, ast.Add) else -e.right.value)
+            return e, 0
+
+        (lb, lk), (rb, rk) = split(left), split(right)
+        if (lk or rk) and not isinstance(lb, ast.Constant) and not isinstance(rb, ast.Constant):
+            k = rk - lk
+            plus = lambda e, c: ast.BinOp(left=e, op=ast.Add(), right=ast.Constant(value=c))  # noqa: E731
+            left, right = (lb, plus(rb, k)) if k > 0 else (plus(lb, -k), rb) if k < 0 else (lb, rb)
+
+        def key(e: ast.expr):
+            cp = copy.deepcopy(e)
+            for n in ast.walk(cp):
+                if isinstance(n, ast.Name) and n.id in self.positions:
+                    n.id = self.positions[n.id]
+            return (isinstance(e, ast.Constant), ast.unparse(ast.fix_missing_locations(cp)))
+
+        if key(right) < key(left):
+            left, right, op = right, left, self.MIRROR[op]
+        return ast.Compare(left=left, ops=[op()], comparators=[right])
+
+    def truth(self, t: ast.expr) -> ast.expr:
+        """`v` in a boolean context, for a local that holds a `Gap` (always truthy) or None: `v is not None`."""
+        if isinstance(t, ast.Name) and t.id in self.gap_locals:
+            return ast.Compare(left=t, ops=[ast.IsNot()], comparators=[ast.Constant(value=None)])
+        if isinstance(t, ast.UnaryOp) and isinstance(t.op, ast.Not) and isinstance(t.operand, ast.Name) \
+                and t.operand.id in self.gap_locals:
+            return ast.Compare(left=t.operand, ops=[ast.Is()], comparators=[ast.Constant(value=None)])
+        return t
+
+    def visit_If(self, node):  # noqa: N802
+        self.generic_visit(node)
+        node.test = self.truth(node.test)
+        return node
+
+    def visit_While(self, node):  # noqa: N802
+        self.generic_visit(node)
+        node.test = self.truth(node.test)
         return node
 
     def visit_BoolOp(self, node):  # noqa: N802
         self.generic_visit(node)
+        node.values = [self.truth(v) for v in node.values]
         vals: list[ast.expr] = []
         for v in node.values:
             vals += v.values if isinstance(v, ast.BoolOp) and type(v.op) is type(node.op) else [v]
@@ -867,6 +939,23 @@ def _take_init(out: list[ast.stmt], var: str) -> ast.expr | None:
 def _loop_as_comprehension(loop: ast.For, out: list[ast.stmt], rest: list[ast.stmt], outside_uses) -> list[ast.stmt] | None:
     """`out`: the statements before the loop (an initialisation is removed from it on success); `rest`: the statements
     after it (a consumed `return` is removed).  Returns the replacement of the loop, or None."""
+    # `for i, g in enumerate(<gaps>): if P: break` + `else: <ends>`, the loop variables used afterwards:
+    #   `i, g = next(((i, g) for i, g in enumerate(<gaps>) if P), (0, None)); if g is None: <ends>`
+    # (the elements are `Gap` objects, never None; when nothing is found the `else` leaves, so `i`, `g` are not used)
+    if (len(loop.body) == 1 and isinstance(loop.body[0], ast.If) and not loop.body[0].orelse
+            and len(loop.body[0].body) == 1 and isinstance(loop.body[0].body[0], ast.Break)
+            and loop.orelse and _always_ends(loop.orelse) and isinstance(loop.target, ast.Tuple) and len(loop.target.elts) == 2
+            and all(isinstance(x, ast.Name) for x in loop.target.elts) and isinstance(loop.iter, ast.Call)
+            and _call_name(loop.iter) == "enumerate" and len(loop.iter.args) == 1
+            and ast.unparse(loop.iter.args[0]) in ("self._gaps", "self.gaps")):
+        i_, g_ = (x.id for x in loop.target.elts)  # type: ignore[attr-defined]
+        if not _mentions(loop.orelse, {i_, g_}):
+            gen = _genexp(_load(loop.target), _store(loop.target), loop.iter, [loop.body[0].test])
+            dflt = ast.Tuple(elts=[ast.Constant(value=0), ast.Constant(value=None)], ctx=ast.Load())
+            call = ast.Call(func=_name("next"), args=[gen, dflt], keywords=[])
+            return [ast.Assign(targets=[_store(loop.target)], value=call),
+                    ast.If(test=ast.Compare(left=_name(g_), ops=[ast.Is()], comparators=[ast.Constant(value=None)]),
+                           body=loop.orelse, orelse=[])]
     tn = _target_names(loop.target)
     if tn is None or len(loop.body) != 1 or outside_uses(tn):
         return None
@@ -1057,8 +1146,29 @@ def _inline_helpers(stmts: list[ast.stmt], scope: _Scope, depth: int) -> list[as
                     return _subst(norm.body[0].value, dict(binds))
             return node
 
+    def continue_at_returns(block: list[ast.stmt], targets, rest: list[ast.stmt]) -> list[ast.stmt] | None:
+        """The helper's body with every `return E` replaced by `<targets> = E; <rest>` (None: a return inside a loop)."""
+        res: list[ast.stmt] = []
+        for x in block:
+            if isinstance(x, ast.Return):
+                if targets is not None:
+                    res.append(ast.Assign(targets=copy.deepcopy(targets),
+                                          value=x.value if x.value is not None else ast.Constant(value=None)))
+                res += copy.deepcopy(rest)
+                return res
+            if isinstance(x, ast.If):
+                a, b = continue_at_returns(x.body, targets, rest), continue_at_returns(x.orelse, targets, rest)
+                if a is None or b is None:
+                    return None
+                res.append(ast.If(test=x.test, body=a, orelse=b))
+            elif any(isinstance(n, ast.Return) for n in ast.walk(x)):
+                return None
+            else:
+                res.append(x)
+        return res
+
     out: list[ast.stmt] = []
-    for s in stmts:
+    for pos, s in enumerate(stmts):
         for field in ("body", "orelse", "finalbody"):
             if isinstance(getattr(s, field, None), list) and not isinstance(s, (ast.FunctionDef, ast.ClassDef)):
                 setattr(s, field, _inline_helpers(getattr(s, field), scope, depth))
@@ -1083,8 +1193,61 @@ def _inline_helpers(stmts: list[ast.stmt], scope: _Scope, depth: int) -> list[as
             if isinstance(s, ast.Expr) and not returns:
                 out += pre + body
                 continue
+            if isinstance(s, (ast.Assign, ast.Expr)) and _leaves_function(body):
+                # every path of the helper returns or raises: what follows the call goes on at each `return`
+                rest = _inline_helpers(stmts[pos + 1:], scope, depth)
+                cont = continue_at_returns(body, s.targets if isinstance(s, ast.Assign) else None, rest)
+                if cont is not None:
+                    return out + pre + cont
         out.append(s)
     return out
+
+
+# `self.<attr>` objects whose class is known (set by the extractors): `{"_buffer": <ClassDef OrderedRingBuffer>}`
+PEERS: dict[str, ast.ClassDef] = {}
+
+
+def _positional_calls(fn: ast.FunctionDef, scope: "_Scope") -> None:
+    """`self.m(a=x, b=y)` -> `self.m(x, y)` for a method `m` of the same class whose parameters are known (in place;
+    keyword-only parameters stay keywords; an omitted parameter with a constant default is filled in when a later one is
+    given)."""
+    if scope.cls is None:
+        return
+    for call in ast.walk(fn):
+        if not (isinstance(call, ast.Call) and call.keywords and isinstance(call.func, ast.Attribute)):
+            continue
+        base = call.func.value
+        if isinstance(base, ast.Name) and base.id == "self":
+            owner = scope.cls
+        elif isinstance(base, ast.Attribute) and isinstance(base.value, ast.Name) and base.value.id == "self" \
+                and base.attr in PEERS:
+            owner = PEERS[base.attr]
+        else:
+            continue
+        found = [x for x in owner.body if isinstance(x, ast.FunctionDef) and x.name == call.func.attr]
+        if not found or any(k.arg is None for k in call.keywords) or any(isinstance(a, ast.Starred) for a in call.args):
+            continue
+        d = found[-1]
+        static = any(ast.unparse(x) == "staticmethod" for x in d.decorator_list)
+        params = [a.arg for a in d.args.posonlyargs + d.args.args][(0 if static else 1):]
+        defaults = dict(zip(reversed(params), reversed(d.args.defaults)))
+        kw = {k.arg: k.value for k in call.keywords}
+        args = list(call.args)
+        ok = True
+        for p_ in params[len(args):]:
+            if p_ in kw:
+                args.append(kw.pop(p_))
+            elif any(q in kw for q in params[params.index(p_) + 1:]):
+                if p_ in defaults and isinstance(defaults[p_], ast.Constant):
+                    args.append(copy.deepcopy(defaults[p_]))
+                else:
+                    ok = False
+                    break
+            else:
+                break
+        if ok and all(k in [a.arg for a in d.args.kwonlyargs] for k in kw):
+            call.args = args
+            call.keywords = [ast.keyword(arg=k, value=v) for k, v in kw.items()]
 
 
 # ----------------------------------------------------------------------------- names
@@ -1276,6 +1439,36 @@ def _inline_locals(fn: ast.FunctionDef, final: set[str]) -> bool:
         a.state = a.state or b.state
         a.impure = a.impure or b.impure
 
+    def before_uses(stmts: list[ast.stmt], v: str) -> _Eff:
+        """What may have happened, along some path through `stmts`, between the definition and SOME use of `v` (the
+        union over the uses: each must still see the value the expression had at the definition)."""
+        seen, acc = _Eff(), _Eff()
+        for k, x in enumerate(stmts):
+            if not _uses_in(stmts[k:], v):
+                break
+            if not _uses_in(x, v):
+                merge(acc, _writes(x, final))
+                continue
+            if isinstance(x, ast.If):
+                if _uses_in(x.test, v):
+                    merge(seen, acc)
+                merge(acc, _writes(ast.Expr(value=x.test), final))
+                for br in (x.body, x.orelse):
+                    if _uses_in(br, v):
+                        inner = before_uses(br, v)
+                        merge(seen, acc)
+                        merge(seen, inner)
+                merge(acc, _writes(x, final))
+                continue
+            if isinstance(x, (ast.Assign, ast.Return, ast.Expr)):
+                merge(seen, acc)
+                merge(seen, effects_before_use(x, v))
+                merge(acc, _writes(x, final))
+                continue
+            merge(acc, _writes(x, final))         # (a loop, …: everything in it may run before a use in it)
+            merge(seen, acc)
+        return seen
+
     def before_first_use(stmts: list[ast.stmt], v: str) -> _Eff:
         """What may have happened, along a path through `stmts`, when `v` is evaluated for the first time."""
         acc = _Eff()
@@ -1327,14 +1520,7 @@ def _inline_locals(fn: ast.FunctionDef, final: set[str]) -> bool:
                 continue
             if any(in_lambda(x, v) for x in later):
                 continue
-            idx = [k for k, x in enumerate(later) if _uses_in(x, v)]
-            region = later[:idx[-1] + 1]
-            ok = True
-            for k, x in enumerate(region):
-                w = effects_before_use(x, v) if k == idx[-1] else _writes(x, final)
-                if _interferes(w, r):
-                    ok = False
-                    break
+            ok = not _interferes(before_uses(later, v), r)
             if ok and not _total(e):
                 # an expression that may raise is evaluated for the first time where it used to be, as far as side
                 # effects can tell (later evaluations repeat the first one)
@@ -1660,16 +1846,49 @@ def normalize(fn: ast.FunctionDef, scope: _Scope | None = None, depth: int = 0) 
             out.pop()
         return _normal_order(out, key)
 
-    fn.body = [s for s in (_Rewrite().visit(s) for s in fn.body) if s is not None]
+    def rewriter() -> _Rewrite:
+        names = [n for n in _bound_names(fn) if n != "self"]
+        pos = {n: (f"_p{params.index(n)}" if n in params else f"_v{k:02d}") for k, n in enumerate(names)}
+        # locals whose every assignment is an element of `self._gaps`, a copy of one, a `Gap(…)` or None
+        holds: dict[str, bool] = {}
+        for n in ast.walk(fn):
+            tv = []
+            if isinstance(n, ast.Assign):
+                for t in n.targets:
+                    if isinstance(t, ast.Name):
+                        tv.append((t.id, n.value))
+                    elif isinstance(t, ast.Tuple) and isinstance(n.value, ast.Tuple) and len(t.elts) == len(n.value.elts):
+                        tv += [(a.id, b) for a, b in zip(t.elts, n.value.elts) if isinstance(a, ast.Name)]
+                    else:
+                        tv += [(a.id, None) for a in ast.walk(t) if isinstance(a, ast.Name)]
+            elif isinstance(n, (ast.For, ast.comprehension)):
+                tv += [(a.id, None) for a in ast.walk(n.target) if isinstance(a, ast.Name)]
+            for name, v in tv:
+                ok = v is not None and (
+                    (isinstance(v, ast.Constant) and v.value is None)
+                    or (isinstance(v, ast.Subscript) and ast.unparse(v.value) in ("self._gaps", "self.gaps")
+                        and not isinstance(v.slice, ast.Slice))
+                    or (isinstance(v, ast.Call) and _call_name(v) == "Gap")
+                    or (isinstance(v, ast.IfExp) and all(
+                        (isinstance(x, ast.Constant) and x.value is None)
+                        or (isinstance(x, ast.Subscript) and ast.unparse(x.value) in ("self._gaps", "self.gaps"))
+                        for x in (v.body, v.orelse))))
+                holds[name] = holds.get(name, True) and ok
+        return _Rewrite(pos, {n for n, ok in holds.items() if ok and n not in params})
+
+    rw = rewriter()
+    fn.body = [s for s in (rw.visit(s) for s in fn.body) if s is not None]
     fn.body = [x for s in fn.body for x in (s if isinstance(s, list) else [s])]
     ast.fix_missing_locations(fn)
     prev = None
     for _ in range(40):
+        _positional_calls(fn, scope)
         fn.body = _inline_helpers(fn.body, scope, depth)
         # the rewrites of single nodes again: inlining and merging create new opportunities
         body = []
+        rw = rewriter()
         for s in fn.body:
-            r = _Rewrite().visit(s)
+            r = rw.visit(s)
             if r is not None:
                 body += r if isinstance(r, list) else [r]
         fn.body = body
